@@ -25,7 +25,8 @@ where
     fn parse(&mut self, input: &mut I) -> Result<Self::Output, Self::Error> {
         match self.parser.parse(input) {
             Ok(value) => Ok(value),
-            Err(_) => Err(self.err.clone()),
+            Err(err) if err.is_fatal() => Err(self.err.clone()),
+            Err(err) => Err(err),
         }
     }
 
